@@ -378,7 +378,9 @@ if __name__ == "__main__":
         inp = spec.get("inputs", {})
         classes = {"ObjectClassDescription": ObjectClassDescription, "AttributeTypeDescription": AttributeTypeDescription, "DITContentRuleDescription": DITContentRuleDescription}
         if "definition" in inp:
-            d = eval(inp["definition"])
+            import re as _re
+            # enum members print as <ObjectClassKind.STRUCTURAL: 'STRUCTURAL'>: rewritten to ObjectClassKind.STRUCTURAL before evaluation
+            d = eval(_re.sub(r"<(\w+)\.(\w+): [^>]*>", r"\1.\2", inp["definition"]))
             res = check_def(classes[inp["cls"]], d)
             print(json.dumps({"text": str(d), "violations": [list(map(str, r)) for r in res]}))
             sys.exit(1 if res else 0)
